@@ -95,6 +95,9 @@ fn cap_check(it: &mut Interp, sc: &dyn Api, h: &Header) {
     }
 }
 
+/// rounds of the C03 reset loop (demand per round <= 48 records x 64 KiB, chunks at least double: 2^13 x 512 B suffices)
+const RESET_LOOP_ROUNDS: usize = 40;
+
 macro_rules! top_fn {
     ($name:ident, $MA:literal) => {
         fn $name<A, const UP: bool, const GA: bool, const DE: bool, const SH: bool, const MCS: usize>(
@@ -199,6 +202,79 @@ macro_rules! top_fn {
                         }
                         return;
                     }
+                }
+            }
+            // C03 reset-loop rule: repeating {workload; reset()} settles on one chunk and then needs no memory
+            if it.reset_loop && !it.plan_enabled && !it.stop && !it.exhausted() && it.fails.is_empty() {
+                it.no_replay = true;
+                let mut log: Vec<usize> = Vec::new();
+                let mut quiet = 0usize;
+                let mut rounds = 0usize;
+                let mut skipped = false;
+                for round in 0..RESET_LOOP_ROUNDS {
+                    it.note(|| format!("reset loop: reset(), then round {round}"));
+                    bump.reset();
+                    it.model.kill_all();
+                    it.foreign = None;
+                    it.model.foreign.clear();
+                    it.cps.clear();
+                    it.vec = None;
+                    {
+                        let sc = bump.as_mut_scope();
+                        it.after_op(sc.x_as_api(), None, true, false, "reset() [reset loop]");
+                    }
+                    if it.stop {
+                        break;
+                    }
+                    if it.last.allocated != 0 || it.last.count > 1 {
+                        it.fail("C03/reset-empty", format!("after reset() [reset loop round {round}]: allocated {} count {}", it.last.allocated, it.last.count));
+                        break;
+                    }
+                    let g0 = with_ctx(0, |c| c.grants.len());
+                    it.pos = 0;
+                    it.feed_overrun = false;
+                    if round == 0 {
+                        it.size_log = Some(Vec::new());
+                    } else {
+                        it.size_feed = Some((log.clone(), 0));
+                    }
+                    loop {
+                        let sc = bump.as_mut_scope();
+                        // top-level-only operations are left out of the repeated workload
+                        if it.run(sc, usize::MAX, 0).is_none() || it.stop {
+                            break;
+                        }
+                    }
+                    if round == 0 {
+                        log = it.size_log.take().unwrap_or_default();
+                    }
+                    it.size_feed = None;
+                    if it.stop {
+                        break;
+                    }
+                    if it.exhausted() || it.feed_overrun {
+                        skipped = true;
+                        break;
+                    }
+                    rounds += 1;
+                    let g1 = with_ctx(0, |c| c.grants.len());
+                    if g1 == g0 {
+                        quiet += 1;
+                        if quiet >= 4 {
+                            break;
+                        }
+                    } else if quiet > 0 {
+                        it.fail("C03/reset-loop-stable", format!("reset loop: round {round} obtained {} chunk(s) from the base allocator although an earlier identical round needed none", g1 - g0));
+                        break;
+                    }
+                }
+                if skipped {
+                    it.class("reset_loop_skipped");
+                } else if !it.stop && it.fails.is_empty() {
+                    if quiet == 0 {
+                        it.fail("C03/reset-loop-converges", format!("reset loop: {rounds} rounds of the same workload each needed new chunks after reset()"));
+                    }
+                    it.class("reset_loop_done");
                 }
             }
             // end of case: the arena is dropped
@@ -495,6 +571,7 @@ impl ArenaEngine {
         let mut it = Interp::new(recs, self.mix, want_desc);
         it.plan_enabled = h.plan.enabled;
         it.probe_only = h.probe_only && !cell.ga && h.ctor % 8 >= 6;
+        it.reset_loop = self.mix == Mix::C03 && h.ctor_arg % 16 == 3;
         let po = it.probe_only;
         it.note(|| format!("cell [{}] min_align={} policy={:?} plan={:?} probe_only={}", cell.name, h.ma, h.policy, h.plan, po));
         (cell.f)(&mut it, &h);
